@@ -919,7 +919,7 @@ def plan(tier, seed):
     shards = [[] for _ in range(nshard)]
     for i, fn in enumerate(names):
         shards[i % nshard].append([fn.stream, fn.function])
-    tasks = [("catalogue", {})]
+    tasks = [("catalogue", {}), ("isolation", {})]
     per = 12 if tier == "quick" else 2000
     for i, sh in enumerate(shards):
         if sh:
@@ -932,8 +932,44 @@ def _record(ctx, fn, case, items, extra=()):
     ctx.case(case, nt, [f"fn:{fn.name}"] + classes + list(extra), key=chash({"sf": case["sf"], "v": case["v"]}))
 
 
+def check_isolation(sf):
+    """Replacing a function in ONE container (documented: StreamsFunctions.update) must not change what another default
+    container, or the shipped catalogue list, finds under the same S/F numbers."""
+    import secsgem.secs.functions as sf_mod
+    from secsgem.secs.functions._all import secs_streams_functions
+
+    case = {"isolation": list(sf)}
+    shipped = list(secs_streams_functions)
+    a = sf_mod.StreamsFunctions()
+    orig = a.function(*sf)
+    if orig is None:
+        return None
+    custom = type(orig.__name__ + "_Custom", (sf_mod.SecsStreamFunction,), {"_stream": sf[0], "_function": sf[1], "_data_format": None,
+                  "_to_host": True, "_to_equipment": True, "_has_reply": False, "_is_reply_required": False, "_is_multi_block": False})
+    try:
+        a.update(custom)
+        if a.function(*sf) is not custom:
+            return Failure("isolation:update-not-effective", case, repr(a.function(*sf)), "the updated container returns the custom class")
+        b = sf_mod.StreamsFunctions()
+        got = b.function(*sf)
+        if got is not orig:
+            return Failure("isolation:update-leaks-into-other-default-container", case, repr(got), repr(orig))
+        if list(secs_streams_functions) != shipped:
+            return Failure("isolation:update-changes-shipped-catalogue", case, f"{len(secs_streams_functions)} entries, S{sf[0]}F{sf[1]} -> {[f for f in secs_streams_functions if (f.stream, f.function) == tuple(sf)]}", "shipped list unchanged")
+    finally:
+        # a leak (only on a broken tree) must not poison the other tasks of this worker process
+        secs_streams_functions[:] = shipped
+    return None
+
+
 def run_task(name, kw, ctx):
     fns, items = catalogue()
+    if name == "isolation":
+        for sf in sorted(fns):
+            case = {"isolation": list(sf)}
+            ctx.case(case, True, ["isolation"], key=chash(case))
+            ctx.report(check_isolation(sf))
+        return
     if name == "catalogue":
         ctx.evals += 1
         for f in scan_catalogue(ctx):
@@ -970,6 +1006,8 @@ def run_task(name, kw, ctx):
 
 
 def replay(case, ctx):
+    if "isolation" in case:
+        return check_isolation(tuple(case["isolation"]))
     if "catalogue" in case:
         for f in scan_catalogue():
             if f.bucket == case["catalogue"]:
